@@ -100,10 +100,12 @@ impl RelayTransport {
             "non matching bufs & recv_infos"
         );
         let mut num_msgs = 0;
-        for i in 0..bufs.len() {
-            let buf_out = &mut bufs[i];
-            let meta_out = &mut metas[i];
-            let recv_info = &mut recv_infos[i];
+        // `num_msgs` is also the index of the next free slot: a dropped datagram does not
+        // use up a slot, we keep polling the queue instead.
+        while num_msgs < bufs.len() {
+            let buf_out = &mut bufs[num_msgs];
+            let meta_out = &mut metas[num_msgs];
+            let recv_info = &mut recv_infos[num_msgs];
             let dm = match self.poll_recv_queue(cx) {
                 Poll::Ready(Some(recv)) => recv,
                 Poll::Ready(None) => {
@@ -119,10 +121,12 @@ impl RelayTransport {
             };
 
             // This *tries* to make the datagrams fit into our buffer by re-batching them.
+            // If not even a single segment fits we still take one (never zero, which would
+            // take nothing and make no progress): it is dropped as too big below.
             let num_segments = dm
                 .datagrams
                 .segment_size
-                .map_or(1, |ss| buf_out.len() / u16::from(ss) as usize);
+                .map_or(1, |ss| (buf_out.len() / u16::from(ss) as usize).max(1));
             let datagrams = dm.datagrams.take_segments(num_segments);
             let empty_after = dm.datagrams.contents.is_empty();
             let dm = RelayRecvDatagram {
@@ -144,7 +148,10 @@ impl RelayTransport {
                     segment_size = ?dm.datagrams.segment_size,
                     "dropping received datagram: noq buffer too small"
                 );
-                break;
+                // Keep going with the next queued datagram: returning `Poll::Pending` here
+                // without having registered our waker with the queue would stall the
+                // datagrams queued behind the dropped one.
+                continue;
                 // In theory we could put some logic in here to fragment the datagram in case
                 // we still have enough room in our `buf_out` left to fit a couple of
                 // `dm.datagrams.segment_size`es, but we *should* have cut those datagrams
